@@ -294,4 +294,15 @@ def track_records(seed):
                         deltas.append(int(cnt) if float(cnt).is_integer() else -10 ** 9)
                     recs.append({"kind": "track", "n": n, "a": a, "b": b, "den": den, "U": U, "rel": rel8,
                                  "abs": deltas, "dbg": [acc, raw_ts]})
+    # decimal increments (not exactly representable: values are not judged) - the time axis has one point per value
+    for inc in (0.1, 0.01, 0.001, 1 / 44100.0, 2.5e-7):
+        for n in list(range(0, 16)) + [113, 1001]:
+            buf = io.BytesIO()
+            with TdmsWriter(buf) as w:
+                w.write_segment([ChannelObject("g", "c", np.arange(n, dtype=np.int16), {
+                    "wf_start_offset": 0.0 if n % 2 else 0.3, "wf_increment": inc,
+                    "wf_start_time": TdmsTimestamp(3 * 10 ** 9, 0)})])
+            ch = TdmsFile.read(io.BytesIO(buf.getvalue()))["g"]["c"]
+            recs.append({"kind": "tracklen", "n": n, "nrel": len(ch.time_track()),
+                         "nabs": len(ch.time_track(absolute_time=True, accuracy="us")), "dbg": [inc, n]})
     return recs
